@@ -122,7 +122,8 @@ fn check_case(ci: usize, case: &Value, same_thread: bool) -> Option<Value> {
             }
             "zone" => {
                 std::env::set_var("TZ", op["z"].as_str().unwrap());
-                if same_thread && i > 0 {
+                if same_thread {
+                    // (also after the first one: this thread rendered under another zone a moment ago, in an earlier history)
                     std::thread::sleep(std::time::Duration::from_millis(1100));
                 }
             }
